@@ -453,7 +453,8 @@ def run(ctx):
                   "ids": [1, 2, 3], "names": ["a", "b"], "addon_policies": ["pass", "set response", "set error"], "connect": ["ok", "fail"],
                   "tcp_streams": len(streams()), "max_cuts": cuts, "servfail_matrix": "2 transports x 3 causes x 16 opcodes x RD x other-bits{0,1}"}
     spec = Spec()
-    states, capped = explore.bfs(spec, depth + 1, ctx.tally, log=ctx.log)  # +1: the first action chooses transport and upstream
+    # +1: the first action chooses transport and upstream.  quick (~10 s of CPU) is explored in-process
+    states, capped = explore.bfs(spec, depth + 1, ctx.tally, log=ctx.log, nproc=ctx.pick(1, None))
     if capped:
         ctx.cap("state cap in bfs")
     ctx.log("bfs: %d states" % states)
@@ -463,7 +464,8 @@ def run(ctx):
         for cs in cut_sets(n, cuts):
             cases.append({"stream": label, "dir": direction, "frames": frames, "cuts": cs, "bad_after_good": bag, "has_bad": has_bad})
     ctx.log("%d segmentation/SERVFAIL executions" % len(cases))
-    par.pmap_tally(family_chunk, cases, ctx.tally)
+    nproc = ctx.pick(min(4, par.NPROC), par.NPROC)
+    par.pmap_tally(family_chunk, cases, ctx.tally, nchunks=nproc * 4, nproc=nproc)
 
 
 def replay(case, t: Tally, verbose=False):
